@@ -208,6 +208,9 @@ def c08_stacks(quick, r):
         S.append((f"X(compose({n}))", (lambda s, mk=mk, k=k: XTransformWrapper(ImgDS(6, k), cont["compose"][0](mk), seed=s)), "x", False))
         S.append((f"X(randomapply({n}))", (lambda s, mk=mk, k=k: XTransformWrapper(ImgDS(6, k), cont["randomapply"][0](mk), seed=s)), "x", False))
         S.append((f"X(scheduled({n}))", (lambda s, mk=mk, k=k: XTransformWrapper(ImgDS(6, k), KDScheduledTransform(mk(), schedule=ConstantSchedule(value=0.5)), seed=s)), "x", False))
+        # containers inside containers: the per-index generator has to pass through every container kind, whatever
+        # the outer container reports about itself
+        S.append((f"X(compose(scheduled({n})))", (lambda s, mk=mk, k=k: XTransformWrapper(ImgDS(6, k), T.KDComposeTransform([KDScheduledTransform(mk(), schedule=ConstantSchedule(value=0.5))]), seed=s)), "x", False))
         S.append((f"Plain(X({n}))", (lambda s, mk=mk, k=k: Plain(XTransformWrapper(Plain(ImgDS(6, k)), mk(), seed=s))), "x", False))
         S.append((f"MV({n})", (lambda s, mk=mk, k=k: KDMultiViewWrapper(ImgDS(6, k), configs=[(2, mk()), (1, cont["compose"][0](mk))], seed=s)), "x", False))
     tens = [n for n in names if leaves[n][1] == "tensor"]
@@ -220,6 +223,10 @@ def c08_stacks(quick, r):
     S.append(("X(compose(probe))", (lambda s: XTransformWrapper(ImgDS(8, "tensor"), T.KDComposeTransform([DrawProbe()]), seed=s)), "x", True))
     S.append(("X(randomapply1(probe))", (lambda s: XTransformWrapper(ImgDS(8, "tensor"), T.KDRandomApply(DrawProbe(), p=1.0), seed=s)), "x", True))
     S.append(("X(scheduled(probe))", (lambda s: XTransformWrapper(ImgDS(8, "tensor"), KDScheduledTransform(DrawProbe(), schedule=ConstantSchedule(value=0.5)), seed=s)), "x", True))
+    S.append(("X(compose(scheduled(probe)))", (lambda s: XTransformWrapper(ImgDS(8, "tensor"), T.KDComposeTransform([KDScheduledTransform(DrawProbe(), schedule=ConstantSchedule(value=0.5))]), seed=s)), "x", True))
+    S.append(("X(compose(probe,scheduled(compose(probe))))", (lambda s: XTransformWrapper(ImgDS(8, "tensor"), T.KDComposeTransform([DrawProbe(), KDScheduledTransform(T.KDComposeTransform([DrawProbe()]), schedule=ConstantSchedule(value=0.5))]), seed=s)), "x", True))
+    S.append(("X(compose(randomapply1(probe)))", (lambda s: XTransformWrapper(ImgDS(8, "tensor"), T.KDComposeTransform([T.KDRandomApply(DrawProbe(), p=1.0)]), seed=s)), "x", True))
+    S.append(("X(scheduled(randomapply1(probe)))", (lambda s: XTransformWrapper(ImgDS(8, "tensor"), KDScheduledTransform(T.KDRandomApply(DrawProbe(), p=1.0), schedule=ConstantSchedule(value=0.5)), seed=s)), "x", True))
     S.append(("MV(probe)", (lambda s: KDMultiViewWrapper(ImgDS(8, "tensor"), configs=[(2, DrawProbe())], seed=s)), "x", True))
     S.append(("MV(probe,probe)", (lambda s: KDMultiViewWrapper(ImgDS(8, "tensor"), configs=[(1, DrawProbe()), (1, DrawProbe())], seed=s)), "x", True))
     S.append(("MV(probe,compose(probe),probe)", (lambda s: KDMultiViewWrapper(ImgDS(8, "tensor"), configs=[
